@@ -91,7 +91,7 @@ P['C09'] = {
     'not_covered': _NOT_COVERED_BLOCKS + ['graph.rs / mtgraph.rs handling of the verdicts'], 'assumptions': _BLOCK_ASSUME,
 }
 P['C10'] = {
-    'units': list(_BU) + _FIR + ['kernels', 'kani:lfsr', 'bx:rtlsdr'],
+    'units': list(_BU) + _FIR + ['kernels', 'kani:lfsr', 'bx:rtlsdr', 'bx:totext'],
     'technique': 'Verus stream-function invariants (spec function F per block written from its documentation) + Kani full-domain proofs of the LFSR steps',
     'level_text': 'Deductive proof for a stated subset: Skip, Delay, VectorSource, VecToStream, ConstantSource, NullSink, RationalResampler (documented keep/repeat rule), FirFilter (counts; values float), RtlSdrDecode (one I/Q per byte pair), StreamToPdu (burst rule), Hilbert / FftStream / FftFilter (framing; kernels uninterpreted) emit exactly F(input) with exact counts; the per-sample kernels of NrziDecode, Tee, the two correlators and BurstTagger equal their documented rule; descrambler and IL2P LFSR steps equal their recurrences for all register/mask/seed values (Kani).',
     'level_note': 'Subset only; the generated per-sample loop around the kernels, the text formatter and float values are not decided.',
